@@ -110,7 +110,7 @@ def common_shrinks(scn):
     for fl in drop_each(faults):
         yield with_path(scn, ["faults"], fl)
     o = scn["options"]
-    for key in ("solve_twice", "reload_phase", "sibling", "device_restored", "device_moved", "device_derived", "entry", "device_used_before", "options_prior_use"):
+    for key in ("solve_twice", "reload_phase", "sibling", "device_restored", "device_moved", "device_derived", "entry", "device_used_before", "options_prior_use", "mesh_reoriented"):
         if scn.get(key):
             s_ = copy.deepcopy(scn)
             s_.pop(key)
